@@ -14,6 +14,7 @@ import (
 	"encoding/json"
 	"fmt"
 	"sync"
+	"sync/atomic"
 	"testing"
 	"time"
 
@@ -190,6 +191,7 @@ func TestVerif_C39(t *testing.T) {
 	runPhase("conc", true, r.N(6, 40))
 	c39ForwardFault(t, r)
 	c39OwnSendFault(t, r)
+	c39CancelRace(t, r)
 	r.Require("answered_by_target", 20)
 	r.Require("fwd_fault_error_responses_seen", 1)
 }
@@ -493,4 +495,105 @@ func c39OwnSendFault(t *testing.T, r *verifkit.R) {
 			r.Sample(map[string]any{"phase": "own-send-fault", "transit": m.nodes[tr].name, "failing_target": m.nodes[x].name, "relayed_during_hold": c1, "relayed_after_failure": c2, "own": own})
 		}
 	})
+}
+
+
+// c39CancelRace: the asker gives up on a request at the very moment its answer arrives (the
+// cancel is issued from the asker's read tap when the CONTROL_RESPONSE is read, before it is
+// dispatched), so "cancelled" and "answered" race inside the agent. The next request of the same
+// asker goes to a DIFFERENT target and must be answered by that target: an answer that lost the
+// race must not surface in a later request.
+func c39CancelRace(t *testing.T, r *verifkit.R) {
+	topos := c39Topos()
+	r.Cases("cancel-race", r.N(2, 12), func(ci int, rng *verifkit.Rand) {
+		spec := topos[ci%2]
+		tap := mkInstallTap()
+		defer tap.close()
+		m, err := mkBuild(t, spec)
+		if err != nil {
+			r.Inconclusive("mesh did not come up: " + err.Error())
+			return
+		}
+		defer m.stop()
+		if err := c39WaitAgents(m, 60*time.Second); err != nil {
+			r.Inconclusive(err.Error())
+			return
+		}
+		asker := rng.Intn(2)
+		A := m.nodes[asker].a
+		var cancelNext atomic.Value
+		cancelNext.Store(context.CancelFunc(func() {}))
+		tap.mu.Lock()
+		tap.onPayload = func(ev *mkFrameEv, payload []byte) {
+			if !ev.Write && ev.Local == A.ID() && ev.Type == protocol.FrameControlResponse {
+				cancelNext.Load().(context.CancelFunc)()
+			}
+		}
+		tap.mu.Unlock()
+		n := r.N(120, 1200)
+		cancelled, answered := 0, 0
+		var history []c39Call
+		for k := 0; k < n; k++ {
+			x := 4 + k%2
+			y := 9 - x
+			ctx, cancel := context.WithCancel(context.Background())
+			cancelNext.Store(cancel)
+			resp, err := A.SendControlRequest(ctx, m.nodes[x].a.ID(), protocol.ControlTypeStatus)
+			cancelNext.Store(context.CancelFunc(func() {}))
+			cancel()
+			if err != nil {
+				cancelled++
+			} else {
+				answered++
+				var st struct {
+					AgentID string `json:"agent_id"`
+				}
+				if resp.Success && json.Unmarshal(resp.Data, &st) == nil {
+					if id, perr := identity.ParseAgentID(st.AgentID); perr == nil && m.name(id) != m.nodes[x].name {
+						r.Violation("cancel-race:answer-of-another-agent-delivered", "cancel-race", ci, fmt.Sprintf("%s asked %s (request cancelled as its answer arrived) and was handed the answer of %s", m.nodes[asker].name, m.nodes[x].name, m.name(id)), nil)
+					}
+				}
+			}
+			// the follow-up request, to the other target, with a normal deadline
+			c := c39Call{Requester: m.nodes[asker].name, Target: m.nodes[y].name, Round: k}
+			ctx2, cancel2 := context.WithTimeout(context.Background(), 6*time.Second)
+			resp2, err2 := A.SendControlRequest(ctx2, m.nodes[y].a.ID(), protocol.ControlTypeStatus)
+			cancel2()
+			if err2 != nil {
+				c.Err = err2.Error()
+				c.IdleMs = time.Since(time.Unix(0, tap.lastData.Load())).Milliseconds()
+			} else {
+				var st struct {
+					AgentID string `json:"agent_id"`
+				}
+				if !resp2.Success || json.Unmarshal(resp2.Data, &st) != nil {
+					c.Err = fmt.Sprintf("unsuccessful response: %q", string(resp2.Data))
+				} else if id, perr := identity.ParseAgentID(st.AgentID); perr == nil {
+					c.Got = m.name(id)
+				} else {
+					c.Got = st.AgentID
+				}
+			}
+			switch {
+			case c.Err == "" && c.Got == c.Target:
+				r.Add("answered_by_target", 1)
+			case c.Err == "":
+				history = append(history, c)
+				r.Violation("cancel-race:answer-of-another-agent-delivered", "cancel-race", ci,
+					fmt.Sprintf("%s asked %s right after giving up on a request to %s as its answer arrived, and was handed the answer of %s (round %d; %d of the racing requests so far ended cancelled, %d answered)", c.Requester, c.Target, m.nodes[x].name, c.Got, k, cancelled, answered), history)
+			case c.IdleMs >= 2000:
+				r.Violation("cancel-race:answer-never-reached-asker", "cancel-race", ci, fmt.Sprintf("%s asked %s and never received an answer (%s)", c.Requester, c.Target, c.Err), nil)
+			default:
+				r.Inconclusive("cancel-race: follow-up request got no answer while frames were moving: " + c.Err)
+			}
+			if len(history) > 0 {
+				break // every later request of this agent would show the same shift
+			}
+		}
+		r.Add("control_requests", 2*n)
+		r.Add("cancel_race_requests_cancelled", cancelled)
+		r.Add("cancel_race_requests_answered", answered)
+		r.Eval(fmt.Sprintf("cancel-race/%d/%d/%d", ci%2, asker, n), cancelled > 0 && answered+cancelled > 10)
+	})
+	r.Require("cancel_race_requests_cancelled", 10)
 }
